@@ -145,11 +145,38 @@ var c20Hostile = []string{
 func genC20(t *rapid.T) c20Case {
 	c20Enumerate()
 	f := base()
-	switch k := rapid.IntRange(0, 12).Draw(t, "kind"); {
+	switch k := rapid.IntRange(0, 16).Draw(t, "kind"); {
+	case k >= 15:
+		// bytes offered as a claim / confirmation (what MsgClaim / MsgConfirm carry as Any)
+		var m proto.Message
+		if rapid.Bool().Draw(t, "isclaim") {
+			chain := rapid.SampledFrom(baseChains).Draw(t, "cchain")
+			m = c03Gen(t, rapid.SampledFrom(c03Types).Draw(t, "ctype"), chain, f)
+		} else {
+			m = genValidFxMsg(t, f, rapid.SampledFrom([]string{"ConfirmBatch", "OracleSetConfirm", "BridgeCallConfirm"}).Draw(t, "ck"))
+		}
+		bz, _ := safeMarshal(m)
+		if rapid.IntRange(0, 9).Draw(t, "mut") < 8 {
+			bz = mutateWire(t, bz, 0, "wc")
+		}
+		return c20Case{Kind: "claim", TypeURL: "/" + proto.MessageName(m), Data: hex.EncodeToString(bz)}
 	case k >= 10:
 		// a stateless-valid fxcore message with one or two wire-level mutations: this is what gets
 		// past the early returns of ValidateBasic and reaches the checks behind them
 		m := genValidFxMsg(t, f, rapid.SampledFrom(fxMsgKinds).Draw(t, "fxkind"))
+		// wrapped claims / confirmations: mutate the wrapped message itself most of the time
+		if rapid.IntRange(0, 9).Draw(t, "inner") < 7 {
+			switch w := m.(type) {
+			case *crosschaintypes.MsgClaim:
+				w.Claim = &codectypes.Any{TypeUrl: w.Claim.TypeUrl, Value: mutateWire(t, w.Claim.Value, 1, "wi")}
+				bz, _ := safeMarshal(w)
+				return c20Case{Kind: "msg", TypeURL: sdk.MsgTypeURL(m), Data: hex.EncodeToString(bz), Note: "valid+inner-mutation " + w.Claim.TypeUrl}
+			case *crosschaintypes.MsgConfirm:
+				w.Confirm = &codectypes.Any{TypeUrl: w.Confirm.TypeUrl, Value: mutateWire(t, w.Confirm.Value, 1, "wi")}
+				bz, _ := safeMarshal(w)
+				return c20Case{Kind: "msg", TypeURL: sdk.MsgTypeURL(m), Data: hex.EncodeToString(bz), Note: "valid+inner-mutation " + w.Confirm.TypeUrl}
+			}
+		}
 		bz, err := safeMarshal(m)
 		if err != nil {
 			bz = nil
@@ -434,6 +461,43 @@ func runC20(c c20Case, rec *ev.Recorder) *Failure {
 		if rec.WantSample() {
 			rec.Sample(c)
 		}
+	case "claim":
+		payload, _ := hex.DecodeString(c.Data)
+		var msg proto.Message
+		var uerr error
+		if fl := catchPanic("UnpackAny", func() {
+			var ec crosschaintypes.ExternalClaim
+			a := &codectypes.Any{TypeUrl: c.TypeURL, Value: payload}
+			if uerr = f.App.InterfaceRegistry().UnpackAny(a, &ec); uerr == nil {
+				msg = ec
+				return
+			}
+			var cf sdk.Msg
+			if uerr = f.App.InterfaceRegistry().UnpackAny(a, &cf); uerr == nil {
+				msg = cf
+			}
+		}); fl != nil {
+			return fl
+		}
+		if msg == nil {
+			rec.Case("", false, "kind:claim", "undecodable")
+			return nil
+		}
+		var verr error
+		if fl := catchPanic("ValidateBasic/"+c.TypeURL, func() { verr = msg.(sdk.HasValidateBasic).ValidateBasic() }); fl != nil {
+			return fl
+		}
+		if ec, ok := msg.(crosschaintypes.ExternalClaim); ok {
+			if fl := catchPanic("ClaimHash/"+c.TypeURL, func() { _ = ec.ClaimHash(); _ = ec.GetType() }); fl != nil {
+				return fl
+			}
+			if verr == nil {
+				if fl := catchPanic("GetClaimer/"+c.TypeURL, func() { _ = ec.GetClaimer() }); fl != nil {
+					return fl
+				}
+			}
+		}
+		rec.Case(ev.Sig("claim", c.TypeURL, verr == nil), true, "kind:claim", "claimtype:"+c.TypeURL, fmt.Sprintf("claim-valid:%v", verr == nil))
 	case "precompile":
 		data, _ := hex.DecodeString(c.Data)
 		to := common.HexToAddress(c.To)
